@@ -15,7 +15,7 @@ must not matter.  A case of this stream is
 and the clause judged on every serialization is the property's: x.serialize() (and Serializer(x).serialize())
 returns the document Serializer(twin instance).serialize(compact) returns for the identically declared family
 without the mix-in.  The same case goes to Coq (Check/C10hchk.v): the state machine of Ser/FastState.v is run
-on the schedule and its late-bound dyn_ser is compared with what typedpy returned.
+on the schedule and what it returns op by op is compared with what typedpy returned.
 """
 import copy
 import datetime
@@ -478,17 +478,17 @@ class Hist:
              "via": via_o, "clause": None, "conf": dict(self.conf),      # the flags in force at this moment
              "inst": rename(E.reify(twin, S.struct_attrs), "_R")}
         if reg_o[0] == "ok":
-            o["clause"] = self.judge(cname, fast_o, fast_v, reg_v, "") or self.judge(cname, via_o, via_v, reg_v, "Serializer:")
+            o["clause"] = self.judge(desc, fast_o, fast_v, reg_v, "") or self.judge(desc, via_o, via_v, reg_v, "Serializer:")
         o["docs"] = (repr(fast_v) if fast_o[0] == "ok" else repr(fast_o), repr(via_v) if via_o[0] == "ok" else repr(via_o),
                      repr(reg_v) if reg_o[0] == "ok" else repr(reg_o))
         self.obs.append(o)
 
-    def judge(self, cname, o, v, reg_v, prefix):
+    def judge(self, desc, o, v, reg_v, prefix):
         from harness.props.c10 import jsonable
         if o[0] != "ok":
             return prefix + "raises:" + o[1]
         bad = []
-        nv = self.norm(v, cname, bad, True)
+        nv = self.norm(v, desc, bad, True)
         if bad:
             return prefix + "serialize-none-keys"
         if not (nv == reg_v):
@@ -497,32 +497,40 @@ class Hist:
             return prefix + "not-json"
         return None
 
-    def norm(self, doc, cname, bad, top=False):
+    def norm(self, doc, desc, bad, top=False):
         """serialize_none=True of a class means: its documents carry every field key, None where the regular
-        document has no entry.  Remove those entries (checking the key set) so that documents compare."""
+        document has no entry.  Remove those entries (checking the key set) so that documents compare.  A structure
+        is serialized by the serializer of ITS OWN class (desc: the value tree the instance was built from), whatever
+        class the field that holds it was declared with."""
+        cname = desc[1]
         c = self.envd[cname]
         sn, compact = self.conf.get(cname, (False, False))
         if not isinstance(doc, dict):
             return doc
         out = dict(doc)
         keys = {T.own_key(c.get("mapper"), fd["name"]): fd for fd in c["fields"]}
+        vals = dict(desc[2])
         if sn:
             if not (compact and len(c["fields"]) == 1) and not set(keys) <= set(out):
                 bad.append(cname)
             out = {k: v for k, v in out.items() if not (v is None and k in keys)}
 
-        def nv(ty, v):
+        def nv(ty, v, d):
             t = ty["t"]
+            if d is None:
+                return v
             if t == "opt":
-                return nv(ty["f"], v)
-            if t == "ref":
-                return self.norm(v, ty["cls"], bad)
+                return nv(ty["f"], v, d)
+            if t == "ref" and d[0] == "struct":
+                return self.norm(v, d, bad)
             if t in ("array", "set") and isinstance(v, list):
-                return [nv(ty["item"], x) for x in v]
+                ds = d[1] if d[0] == "list" else d[2] if d[0] == "set" else None
+                if ds is not None and len(ds) == len(v):      # (a generated set holds one element at most)
+                    return [nv(ty["item"], x, dx) for x, dx in zip(v, ds)]
             return v
         for k, fd in keys.items():
             if k in out:
-                out[k] = nv(fd["ty"], out[k])
+                out[k] = nv(fd["ty"], out[k], vals.get(fd["name"]))
         return out
 
     def run(self, ops):
@@ -558,11 +566,12 @@ def hist_tags(h, ops, ob):
             tags.add("trusted-empty-instance")
 
     def walk(d, declared, nested):
-        c = envd[d[1]]
-        dc = envd[declared]
+        # a structure is serialized by the serializer of ITS OWN class (fields, mapper, flags), whatever class the field
+        # that holds it was declared with
+        dc = envd[d[1]]
         if d[1] != declared:
             tags.add("subclass-instance-in-base-field")
-        sn, compact = ob.get("conf", h.conf).get(declared, (False, False))
+        sn, compact = ob.get("conf", h.conf).get(d[1], (False, False))
         if compact and len(dc["fields"]) == 1:
             if nested:
                 tags.add("nested-compact")
@@ -603,6 +612,7 @@ def stale_collection_fields(h, classes):
     """Array.serialize / Set.serialize keep the function `items._ty.serialize` they saw at their FIRST call in
     a per-field cache (field._serialize).  Returns the Array/Set-of-class fields of the given classes (and of
     the classes they refer to) whose cached function is no longer the class's current serializer."""
+    from typedpy.structures import Field
     out, seen, todo = [], set(), list(classes)
     while todo:
         n = todo.pop()
@@ -626,8 +636,10 @@ def stale_collection_fields(h, classes):
                 cached = getattr(fobj, "_serialize", None)
                 if cached is not None and d in h.defined:
                     cells = [c.cell_contents for c in (cached.__closure__ or ())]
-                    frozen = [c for c in cells if callable(c) and not isinstance(c, type) and not hasattr(c, "items")]
-                    # (no frozen function in the closure: the implementation does not cache one - nothing is stale)
+                    frozen = [c for c in cells if callable(c) and not isinstance(c, type) and not hasattr(c, "items")
+                              and not isinstance(getattr(c, "__self__", None), Field)]
+                    # (no frozen function in the closure - the bound serialize method of the item FIELD looks the class's
+                    # serializer up at every call -: the implementation does not cache one, nothing is stale)
                     if frozen and h.nsf[d + "_F"].serialize not in frozen:
                         out.append((n, fd["name"]))
     return out
@@ -646,9 +658,11 @@ def sub_structs(v):
 
 EXPLAINS = {   # clause kind -> tags that are known to produce it
     "not-json": ["decimal-raw"],
-    "document-differs": ["stale-collection-serializer", "subclass-instance-in-base-field", "compact-conditions",
-                         "nested-compact", "mapper-inherited-by-nested", "trusted-empty-instance"],
-    "serialize-none-keys": ["stale-collection-serializer", "compact-conditions", "nested-compact",
+    # (the features that are open design limits of the fast serializer come first: a history that shows one of them AND
+    # a subclass instance / an early serialization is explained by the former on a tree where the latter are repaired)
+    "document-differs": ["compact-conditions", "nested-compact", "mapper-inherited-by-nested",
+                         "stale-collection-serializer", "subclass-instance-in-base-field", "trusted-empty-instance"],
+    "serialize-none-keys": ["compact-conditions", "nested-compact", "stale-collection-serializer",
                             "subclass-instance-in-base-field"],
     "raises": ["stale-collection-serializer", "trusted-empty-instance", "subclass-instance-in-base-field"],
 }
@@ -762,11 +776,36 @@ def lattice_case(shape, perm):
     return fam, ops + [copy.deepcopy(final)]
 
 
+def trusted_empty_cases(fresh):
+    """from_trusted_data(None) WITHOUT keywords is an instantiation like any other: the class gets its serializer.
+    Parent (optional field) / Child(Parent) (optional field): the trusted empty instance of either, before / after the
+    parent's serializer exists (x.serialize() of an implementation that skips the mix-in's __init__ for such an
+    instance is the inherited closure - the same empty document here - or the NotImplementedError stub)."""
+    intf = {"t": "prim", "f": dict(T.INTF)}
+    strf = {"t": "prim", "f": {"t": "str"}}
+    out = []
+    for target, pre in itertools.product(["parent", "child"], [[], ["create-parent"], ["inst-parent"]]):
+        p = {"name": fresh("Lp"), "base": None, "fields": [{"name": "a", "ty": intf, "default": None}], "fast": True,
+             "required": [], "additional": None, "ignore_none": False, "mapper": None}
+        c = {"name": fresh("Lc"), "base": p["name"], "fast": True, "required": [], "additional": None,
+             "ignore_none": False, "mapper": None, "fields": [{"name": "user_name", "ty": strf, "default": None}]}
+        ops = []
+        if pre == ["create-parent"]:
+            ops.append(["create", p["name"], False, False])
+        if pre == ["inst-parent"]:
+            ops.append(["inst", p["name"], ("struct", p["name"], [("a", ("int", 1))]), False])
+        t = p if target == "parent" else c
+        ops.append(["inst", t["name"], ("struct", t["name"], []), True])
+        ops.append(["ser", len([o for o in ops if o[0] == "inst"]) - 1])
+        out.append(([p, c], ops))
+    return out
+
+
 def lattice_cases(rnd, fresh, spec):
     """spec = (max schedule length, complete up to this length, number of longer schedules sampled with rnd)"""
     max_len, full, n_sample = spec
     shapes = lattice_shapes(fresh)
-    out = []
+    out = trusted_empty_cases(fresh)
     for shape in shapes:
         for r in range(0, full + 1):
             for perm in itertools.permutations(range(len(shape[1])), r):
